@@ -560,6 +560,14 @@ func (a *Allocator) IPs(svc string) []net.IP {
 	return nil
 }
 
+// Ports returns the ports the service's allocation reserves on its addresses.
+func (a *Allocator) Ports(svc string) []Port {
+	if alloc := a.allocated[svc]; alloc != nil {
+		return append([]Port(nil), alloc.ports...)
+	}
+	return nil
+}
+
 func (a *Allocator) AllocationKey(svc string) string {
 	if alloc := a.allocated[svc]; alloc != nil {
 		return alloc.key.backend + alloc.key.sharing
